@@ -24,6 +24,25 @@ Proof. induction l as [|a l IH]; [apply sumw_nil|]. rewrite sumw_cons, IH. refle
 Lemma zseq_nodup n : forall lo, NoDup (zseq lo n).
 Proof. induction n as [|k IH]; intros lo; cbn [zseq]; constructor; [intros Hin; apply zseq_In in Hin; lia|apply IH]. Qed.
 
+(* membership in the least rule-closed set is decidable on every finite graph: run the first walk *)
+Lemma Unch_dec edges todo0 lcount : NoDup todo0 -> ~ In 0 todo0 -> (forall i j, In (i, j) edges -> j <> 0) ->
+  forall v, Unch edges todo0 lcount v \/ ~ Unch edges todo0 lcount v.
+Proof.
+  intros Nd Nz Hnz v.
+  set (adj := adj_of_edges edges). set (nodes := nodup Z.eq_dec (todo0 ++ map snd edges)).
+  assert (Hadj : forall i j, In j (adj i) <-> In (i, j) edges) by apply adj_of_edges_spec.
+  assert (Hnz' : forall i j, In j (adj i) -> j <> 0) by (intros i j Hj; apply (Hnz i j), Hadj, Hj).
+  assert (F : finished1 (run1 adj lcount (sumw adj nodes) (init1 todo0)) = true).
+  { apply (walk1_terminates adj lcount nodes); auto.
+    - apply NoDup_nodup.
+    - intros i j _ Hj. apply nodup_In. apply in_or_app. right. apply in_map_iff. exists (i, j). split; [reflexivity|apply Hadj; auto].
+    - intros x Hx. apply nodup_In. apply in_or_app. left; auto. }
+  pose proof (walk1_lfp adj edges lcount todo0 Hadj Nz Hnz' (sumw adj nodes) Nd F v) as L.
+  destruct (getb (w_nh (run1 adj lcount (sumw adj nodes) (init1 todo0))) v) eqn:E.
+  - left. apply L. reflexivity.
+  - right. intros Uv. apply L in Uv. congruence.
+Qed.
+
 Section Image.
 Variable rows : list (list Z).
 Variable bl : zmap Z.
@@ -288,6 +307,124 @@ Proof.
     + apply pixel_conn_all. exact Hp.
 Qed.
 
+(* ---------------------------------------------------------------- binary images *)
+Lemma unch_pos v : Unch e todo0 lcount v -> 0 < v.
+Proof.
+  intros Uv. destruct Uv as [v Hb|i j _ _ Hj _|i1 i2 j _ _ _ _ _ Hj _].
+  - apply todo0_range in Hb. lia.
+  - destruct (edges_range i j Hj). lia.
+  - destruct (edges_range i1 j Hj). lia.
+Qed.
+
+Lemma decide_unch v : Unch e todo0 lcount v \/ ~ Unch e todo0 lcount v.
+Proof.
+  apply Unch_dec.
+  - apply todo_of_nodup.
+  - intros H0. apply todo0_In in H0. lia.
+  - intros i j Hij. destruct (edges_range i j Hij). lia.
+Qed.
+
+Hypothesis Hbinary : lcount <= 1.
+
+(* with a single object label rule R3 never fires: an unchanged background region touches the border *)
+Lemma binary_unch_bg v : Unch e todo0 lcount v -> isobj lcount v = false -> In v todo0.
+Proof.
+  intros Uv Ov. destruct Uv as [v Hb|i j _ _ _ Oj|i1 i2 j U1 U2 O1 O2 Ne _ _]; [exact Hb|congruence|].
+  exfalso. apply unch_pos in U1. apply unch_pos in U2. unfold isobj in O1, O2. lia.
+Qed.
+
+Lemma adj4_same_region p q : adj4 Hz Wz p q -> getz pix p = 0 -> getz pix q = 0 -> getz bl p = getz bl q.
+Proof.
+  intros [r [c [[Hr [Hc [[-> ->]|[-> ->]]]]|[Hr [Hc [[-> ->]|[-> ->]]]]]]] Pp Pq.
+  - apply L_vert; auto.
+  - symmetry. apply L_vert; auto.
+  - apply L_horiz; auto.
+  - symmetry. apply L_horiz; auto.
+Qed.
+
+Lemma adj4_in_range p q : adj4 Hz Wz p q -> 0 <= p < Z.of_nat npix /\ 0 <= q < Z.of_nat npix.
+Proof.
+  intros [r [c [[Hr [Hc [[-> ->]|[-> ->]]]]|[Hr [Hc [[-> ->]|[-> ->]]]]]]]; split;
+    try (apply pix_in_range; lia); replace (r * Wz + c + 1) with (r * Wz + (c + 1)) by lia; apply pix_in_range; lia.
+Qed.
+
+Lemma border_pixel_region p : on_border Hz Wz p -> In (getz lab p) todo0.
+Proof.
+  intros [r [c [-> [Hr [Hc Hb]]]]]. apply todo0_In. split.
+  - destruct (reg_facts _ (pix_in_range r c Hr Hc)) as [A _]. lia.
+  - unfold border_vals. fold Wz Hz. destruct Hb as [-> | [-> | [-> | ->]]].
+    + apply in_or_app; left. apply in_map_iff. exists c. split; [f_equal; lia|apply zseq_In; unfold Wz in Hc; lia].
+    + apply in_or_app; right. apply in_or_app; right. apply in_or_app; left. apply in_map_iff. exists c.
+      split; [reflexivity|apply zseq_In; unfold Wz in Hc; lia].
+    + apply in_or_app; right. apply in_or_app; left. apply in_map_iff. exists r.
+      split; [f_equal; lia|apply zseq_In; unfold Hz in Hr; lia].
+    + apply in_or_app; right. apply in_or_app; right. apply in_or_app; right. apply in_map_iff. exists r.
+      split; [f_equal; lia|apply zseq_In; unfold Hz in Hr; lia].
+Qed.
+
+Lemma border_region_pixel v : In v todo0 -> exists q, on_border Hz Wz q /\ v = getz lab q.
+Proof.
+  intros Hv. apply todo0_In in Hv as [_ Hv]. unfold border_vals in Hv. fold Wz Hz in Hv.
+  assert (Wp : 0 < Wz) by (unfold Wz; lia). assert (Hp : 0 < Hz) by (unfold Hz; lia).
+  repeat (apply in_app_or in Hv as [Hv|Hv]); apply in_map_iff in Hv as [x [E Hx]]; apply zseq_In in Hx; symmetry in E.
+  - exists (0 * Wz + x). split; [exists 0, x; unfold Wz; repeat split; lia|rewrite E; f_equal; lia].
+  - exists (x * Wz + 0). split; [exists x, 0; unfold Hz; repeat split; lia|rewrite E; f_equal; lia].
+  - exists ((Hz - 1) * Wz + x). split; [exists (Hz - 1), x; unfold Wz; repeat split; lia|exact E].
+  - exists (x * Wz + (Wz - 1)). split; [exists x, (Wz - 1); unfold Hz; repeat split; lia|rewrite E; f_equal; lia].
+Qed.
+
+Lemma on_border_in_range q : on_border Hz Wz q -> 0 <= q < Z.of_nat npix.
+Proof. intros [r [c [-> [Hr [Hc _]]]]]. apply pix_in_range; auto. Qed.
+
+Lemma bgpath_same_region p q : getz pix p = 0 -> 0 <= p < Z.of_nat npix -> BgPath rows p q ->
+  getz pix q = 0 /\ 0 <= q < Z.of_nat npix /\ getz lab q = getz lab p.
+Proof.
+  intros Pp Rp Path. induction Path as [|q s Path IH A Ps]; [auto|].
+  destruct IH as [Pq [Rq Eq]]. fold Hz Wz in A. destruct (adj4_in_range q s A) as [_ Rs].
+  split; [exact Ps|]. split; [exact Rs|]. rewrite <- Eq.
+  destruct (reg_facts q Rq) as [_ [_ [_ Bq]]]. destruct (reg_facts s Rs) as [_ [_ [_ Bs]]].
+  rewrite (Bq Pq), (Bs Ps), (adj4_same_region q s A Pq Ps). reflexivity.
+Qed.
+
+Hypothesis L_sep : components_separate rows bl.
+
+Lemma outside_iff_border p : 0 <= p < Z.of_nat npix -> getz pix p = 0 -> (In (getz lab p) todo0 <-> Outside rows p).
+Proof.
+  intros Rp Pp. split.
+  - intros Hb. destruct (border_region_pixel _ Hb) as [q [Bq Eq]]. pose proof (on_border_in_range q Bq) as Rq.
+    destruct (reg_facts p Rp) as [_ [Op [_ Bp]]]. destruct (reg_facts q Rq) as [_ [Oq [Fq Bq']]].
+    assert (Pq : getz pix q = 0).
+    { destruct (Z.eq_dec (getz pix q) 0) as [|N]; [auto|]. exfalso. pose proof (proj2 Oq N) as O1. rewrite <- Eq in O1.
+      apply Op in O1. contradiction. }
+    exists q. split; [exact Bq|]. split; [exact Pq|]. apply L_sep; auto.
+    + rewrite (Bp Pp), (Bq' Pq) in Eq. lia.
+    + apply L_bg; auto.
+  - intros [q [Bq [Pq Path]]]. pose proof (on_border_in_range q Bq) as Rq.
+    destruct (bgpath_same_region q p Pq Rq Path) as [_ [_ E]]. rewrite E. apply border_pixel_region. exact Bq.
+Qed.
+
+(* binary input: the model's output is ordinary 4-connected hole filling *)
+Theorem binary_agrees_with_fill_sec (g : Z -> Z) :
+  (forall p, 0 <= p < Z.of_nat npix -> paint_ok e todo0 lcount (getz lab p) (g p)) ->
+  forall p, 0 <= p < Z.of_nat npix -> (g p <> 0 <-> (getz pix p <> 0 \/ ~ Outside rows p)).
+Proof.
+  intros Hg p Rp. destruct (Hg p Rp) as [A B]. destruct (reg_facts p Rp) as [Pos [Op [Fp Bp]]].
+  assert (ParentPos : forall k, Parent e todo0 lcount (getz lab p) k -> k <> 0).
+  { intros k [Uk _]. apply unch_pos in Uk. lia. }
+  destruct (Z.eq_dec (getz pix p) 0) as [P0|P1].
+  - assert (Ov : isobj lcount (getz lab p) = false).
+    { destruct (isobj lcount (getz lab p)) eqn:O; [|reflexivity]. exfalso. exact (proj1 Op eq_refl P0). }
+    destruct (decide_unch (getz lab p)) as [Uv|Nv].
+    + rewrite (A Uv), Ov. split; [intros N; contradiction|].
+      intros [N|N]; [contradiction|]. exfalso. apply N. apply outside_iff_border; auto. apply binary_unch_bg; auto.
+    + split; [|intros _; apply ParentPos, B, Nv]. intros _. right. intros Out. apply Nv. apply Unch_border.
+      apply outside_iff_border; auto.
+  - split; [intros _; left; exact P1|]. intros _.
+    destruct (decide_unch (getz lab p)) as [Uv|Nv].
+    + rewrite (A Uv). rewrite (proj2 Op P1). lia.
+    + apply ParentPos, B, Nv.
+Qed.
+
 End Image.
 
 (* ---------------------------------------------------------------- closed statements *)
@@ -302,6 +439,23 @@ Theorem fill_labeled_holes_correct_img rows bl count :
 Proof.
   intros [Hr [Hn [Hw Hh]]] [A B C D].
   exact (fill_labeled_holes_correct rows bl count Hr Hn Hw Hh A B C D).
+Qed.
+
+Theorem binary_agrees_with_fill rows bl count :
+  rect_nonneg rows -> valid_labelling rows bl count -> components_separate rows bl ->
+  Forall (fun v => v = 0 \/ v = 1) (concat rows) ->
+  exists g, f_out (fill_core rows bl count) = grid_of (length rows) (length (hd [] rows)) g /\
+    forall p, 0 <= p < Z.of_nat (length (concat rows)) -> (g p <> 0 <-> (pixv rows p <> 0 \/ ~ Outside rows p)).
+Proof.
+  intros Hrn Hvl Hsep Hbin.
+  destruct (fill_labeled_holes_correct_img rows bl count Hrn Hvl) as [_ [g [Eg Hg]]].
+  exists g. split; [exact Eg|]. destruct Hrn as [Hr [Hn [Hw Hh]]]. destruct Hvl as [A B C D].
+  assert (Hb : fold_left Z.max (concat rows) 0 <= 1).
+  { assert (G : forall l a, a <= 1 -> Forall (fun v => v = 0 \/ v = 1) l -> fold_left Z.max l a <= 1).
+    { induction l as [|x l IH]; intros a Ha F; cbn [fold_left]; [exact Ha|]. inversion F as [|y z Hx F']; subst.
+      apply IH; [lia|exact F']. }
+    apply G; [lia|exact Hbin]. }
+  exact (binary_agrees_with_fill_sec rows bl count Hr Hn Hw Hh A B C D Hb Hsep g Hg).
 Qed.
 
 Lemma labelling_ok_sound rows bl count : labelling_ok_b rows bl count = true -> valid_labelling rows bl count.
@@ -342,4 +496,27 @@ Example fill_self_correct_example :
 Proof.
   cbv zeta. split; [|split; vm_compute; reflexivity].
   unfold rect_nonneg. cbn [hd length concat app]. repeat split; try lia; repeat constructor; lia.
+Qed.
+
+(* Example: the hypotheses of binary_agrees_with_fill hold for a ring with a one-pixel hole
+   (labelled by the model's own flood fill), and the hole is filled *)
+Example binary_agrees_example :
+  let rows := [[1;1;1];[1;0;1];[1;1;1]] in
+  let own := label4 3 3 (zload (concat rows) 0 zempty) 9 in
+  rect_nonneg rows /\ valid_labelling rows (fst own) (snd own) /\ components_separate rows (fst own) /\
+  Forall (fun v => v = 0 \/ v = 1) (concat rows) /\ f_out (fill_core rows (fst own) (snd own)) = [[1;1;1];[1;1;1];[1;1;1]].
+Proof.
+  cbv zeta. split; [|split; [|split; [|split]]].
+  - unfold rect_nonneg. cbn [hd length concat app]. repeat split; try lia; repeat constructor; lia.
+  - apply labelling_ok_sound. vm_compute. reflexivity.
+  - intros p q Hp Hq E N. cbn [concat app length] in Hp, Hq.
+    assert (G : forall x, 0 <= x < 9 -> getz (fst (label4 3 3 (zload (concat [[1;1;1];[1;0;1];[1;1;1]]) 0 zempty) 9)) x <> 0 -> x = 4).
+    { intros x Hx Nx.
+      assert (F : forallb (fun x => (getz (fst (label4 3 3 (zload (concat [[1;1;1];[1;0;1];[1;1;1]]) 0 zempty) 9)) x =? 0) || (x =? 4)) (zseq 0 9) = true)
+        by (vm_compute; reflexivity).
+      rewrite forallb_forall in F. specialize (F x ltac:(apply zseq_In; lia)). lia. }
+    assert (p = 4) by (apply G; [lia|exact N]). assert (q = 4) by (apply G; [lia|rewrite <- E; exact N]).
+    subst. constructor.
+  - cbn [concat app]. repeat (constructor; [lia|]). constructor.
+  - vm_compute. reflexivity.
 Qed.
